@@ -226,13 +226,25 @@ def run_check(prop: str, tier: str, index: Optional[Index] = None, write: bool =
         os.makedirs(os.path.join(VERIF, "evidence"), exist_ok=True)
         with open(os.path.join(VERIF, "evidence", f"{prop}.json"), "w") as fh:
             json.dump(ev, fh, indent=1)
+    run_check.last = (ctx, new_viol, known_hit, errors)
     if not quiet:
+        try:
+            _print_summary(prop, tier, rules, ctx, known_hit, new_viol, errors, wall, per_rule, out_lines)
+        except BrokenPipeError:
+            import sys
+            try:
+                sys.stdout = open(os.devnull, "w")
+            except OSError:
+                pass
+    return rc
+
+
+def _print_summary(prop, tier, rules, ctx, known_hit, new_viol, errors, wall, per_rule, out_lines):
+    if True:
         nh = sum(1 for o in ctx.obs if o.ok)
         print(f"wsverif {prop} tier={tier}: rules={len(rules)} instances={len(ctx.obs)} hold={nh} "
               f"known={len(known_hit)} new={len(new_viol)} errors={len(errors)} paths={ctx.paths} wall={wall:.2f}s")
         for rid, d in per_rule.items():
             print(f"  {rid}: {d['discharged']}/{d['instances']} instances hold (floor {d['min_instances']}, paths {d['paths']})")
         for ln in out_lines:
-            print(ln)
-    run_check.last = (ctx, new_viol, known_hit, errors)
-    return rc
+            print(ln, flush=True)
